@@ -132,6 +132,87 @@ type counterModel struct {
 	bufF, capF, pF   *types.Var
 	effects          map[*ssa.Function]setEffect
 	unknownBufEvents []string
+	methods          map[*ssa.Function]bool
+	depth            int
+}
+
+// recvHelper: call is a static call, from method fn, of another Counter method on the same receiver.
+func (m *counterModel) recvHelper(call *ssa.Call, fn *ssa.Function) *ssa.Function {
+	cal := staticCallee(&call.Call)
+	if cal == nil || cal.Blocks == nil || !m.methods[cal] || cal == fn || len(fn.Params) == 0 || len(call.Call.Args) == 0 || call.Call.Args[0] != ssa.Value(fn.Params[0]) {
+		return nil
+	}
+	return cal
+}
+
+// closure: fn and the Counter helpers it (transitively) calls on its receiver.
+func (m *counterModel) closure(fn *ssa.Function) []*ssa.Function {
+	out, seen := []*ssa.Function{fn}, map[*ssa.Function]bool{fn: true}
+	for i := 0; i < len(out); i++ {
+		f := out[i]
+		allInstrs(f, func(in ssa.Instruction) {
+			if call, ok := in.(*ssa.Call); ok {
+				if h := m.recvHelper(call, f); h != nil && !seen[h] {
+					seen[h] = true
+					out = append(out, h)
+				}
+			}
+		})
+	}
+	return out
+}
+
+// predCmps: comparisons that hold whenever the bool-returning function returns true.
+func predCmps(fn *ssa.Function) []Cmp {
+	if fn == nil || fn.Blocks == nil {
+		return nil
+	}
+	var rets []*ssa.Return
+	allInstrs(fn, func(in ssa.Instruction) {
+		if r, ok := in.(*ssa.Return); ok {
+			rets = append(rets, r)
+		}
+	})
+	if len(rets) != 1 || len(rets[0].Results) != 1 {
+		return nil
+	}
+	isFalse := func(v ssa.Value) bool {
+		c, ok := v.(*ssa.Const)
+		return ok && c.Value != nil && c.Value.String() == "false"
+	}
+	var out []Cmp
+	switch x := rets[0].Results[0].(type) {
+	case *ssa.BinOp:
+		out = append(out, Cmp{x.X, x.Y, x.Op})
+		out = append(out, cmpsAt(x.Block())...)
+	case *ssa.Phi:
+		n := 0
+		for i, e := range x.Edges {
+			if isFalse(e) {
+				continue
+			}
+			n++
+			if n > 1 {
+				return nil
+			}
+			if bo, ok := e.(*ssa.BinOp); ok {
+				out = append(out, Cmp{bo.X, bo.Y, bo.Op})
+			}
+			pred := x.Block().Preds[i]
+			out = append(out, cmpsAt(pred)...)
+			// the edge pred -> φ block itself
+			if iff, ok := pred.Instrs[len(pred.Instrs)-1].(*ssa.If); ok {
+				for k, sc := range pred.Succs {
+					if sc == x.Block() {
+						if cm, ok := edgeCmp(iff, k); ok {
+							out = append(out, cm)
+						}
+					}
+				}
+			}
+		}
+	}
+	return out
 }
 
 func (m *counterModel) isBufRecv(v ssa.Value) bool {
@@ -201,6 +282,17 @@ func (m *counterModel) analyse(fn *ssa.Function, entry ival) (ival, string) {
 				continue
 			}
 			cal := staticCallee(&call.Call)
+			if h := m.recvHelper(call, fn); h != nil && m.depth < 4 {
+				// a helper method on the same counter: its effect on δ is its own exit interval
+				m.depth++
+				ex, _ := m.analyse(h, s)
+				m.depth--
+				if ex.bot {
+					return ival{bot: true}
+				}
+				s = ex
+				continue
+			}
 			if cal == nil || len(call.Call.Args) == 0 || !m.isBufRecv(call.Call.Args[0]) {
 				continue
 			}
@@ -284,6 +376,9 @@ func (m *counterModel) analyse(fn *ssa.Function, entry ival) (ival, string) {
 		work = work[1:]
 		visits[b]++
 		out := transfer(b, in[b])
+		if out.bot {
+			continue
+		}
 		last := b.Instrs[len(b.Instrs)-1]
 		if _, ok := last.(*ssa.Return); ok {
 			if exit.bot || out.hi > exit.hi {
@@ -340,6 +435,10 @@ func runC19(c *Ctx) {
 		return
 	}
 	methods := P.Methods("distinct", "Counter")
+	m.methods = map[*ssa.Function]bool{}
+	for _, fn := range methods {
+		m.methods[fn] = true
+	}
 	c.sawFn(fnName(ctor))
 	// constructor: buf = fresh empty map, cap = size param; no other store to cap anywhere
 	ctorOK := false
@@ -574,39 +673,107 @@ func runC19(c *Ctx) {
 			okR = true
 		}
 		c.judge(okR, "R-REROLL", "distinct.(*Counter).Add:membership re-decided", add.Pos(), "every path either removes v from or adds v to the buffer", "Add can return without re-deciding v's membership ("+wit+"): a value already buffered skips its coin flip, which biases the estimate upward")
-		// each removal pass is followed by exactly one halving of p before the next pass or exit
-		var rng ssa.Instruction
-		var done *ssa.BasicBlock
-		allInstrs(add, func(in ssa.Instruction) {
-			if r, ok := in.(*ssa.Range); ok && m.isBufRecv(r.X) {
-				rng = in
+		// each removal pass is followed by a halving of p before the next pass or exit; the pass and the
+		// halving may live in helper methods on the same counter
+		storesP := func(in ssa.Instruction) bool {
+			st, ok := in.(*ssa.Store)
+			if !ok {
+				return false
 			}
-			if nx, ok := in.(*ssa.Next); ok {
-				if r, ok := nx.Iter.(*ssa.Range); ok && m.isBufRecv(r.X) {
-					// the block entered when iteration is exhausted
-					if iff, ok := nx.Block().Instrs[len(nx.Block().Instrs)-1].(*ssa.If); ok {
-						done = iff.Block().Succs[1]
+			fa, ok := st.Addr.(*ssa.FieldAddr)
+			if !ok {
+				return false
+			}
+			_, f := fieldVarOf(fa)
+			return sameField(f, m.pF)
+		}
+		alwaysHalves := map[*ssa.Function]bool{}
+		for _, h := range m.closure(add)[1:] {
+			if okH, _ := mustPassToExit(P, firstInstr(h), storesP); okH || storesP(firstInstr(h)) {
+				alwaysHalves[h] = true
+			}
+		}
+		// unpaired[h]: h can return after a removal pass without having halved p
+		unpaired := map[*ssa.Function]bool{}
+		passFound := false
+		var judgeFn func(fn *ssa.Function, depth int)
+		judged := map[*ssa.Function]bool{}
+		judgeFn = func(fn *ssa.Function, depth int) {
+			if judged[fn] || depth > 4 {
+				return
+			}
+			judged[fn] = true
+			isShift := func(in ssa.Instruction) bool {
+				if storesP(in) {
+					return true
+				}
+				if call, ok := in.(*ssa.Call); ok {
+					if h := m.recvHelper(call, fn); h != nil && alwaysHalves[h] {
+						return true
 					}
 				}
+				return false
 			}
-		})
-		if rng == nil || done == nil {
+			// pass events of fn: where each one is over
+			type pass struct {
+				at    ssa.Instruction // the range / the call
+				after ssa.Instruction // first instruction once the pass is over
+			}
+			var passes []pass
+			allInstrs(fn, func(in ssa.Instruction) {
+				switch x := in.(type) {
+				case *ssa.Next:
+					if r, ok := x.Iter.(*ssa.Range); ok && m.isBufRecv(r.X) {
+						if iff, ok := x.Block().Instrs[len(x.Block().Instrs)-1].(*ssa.If); ok {
+							passes = append(passes, pass{r, iff.Block().Succs[1].Instrs[0]})
+						}
+					}
+				case *ssa.Call:
+					if h := m.recvHelper(x, fn); h != nil {
+						judgeFn(h, depth+1)
+						if unpaired[h] {
+							b := x.Block()
+							for k, in2 := range b.Instrs {
+								if in2 == in && k+1 < len(b.Instrs) {
+									passes = append(passes, pass{x, b.Instrs[k+1]})
+								}
+							}
+						}
+					}
+				}
+			})
+			isPass := func(in ssa.Instruction) bool {
+				for _, p := range passes {
+					if p.at == in {
+						return true
+					}
+				}
+				return false
+			}
+			for _, p := range passes {
+				passFound = true
+				c.sawFn(fnName(fn))
+				// another pass without halving in between is always wrong
+				again, wit := reachesWithout(P, p.after, true, isPass, isShift)
+				// reaching a return without halving: wrong in Add itself, deferred to the callers for a helper
+				toRet, wit2 := reachesWithout(P, p.after, true, isReturn, isShift)
+				key := fnName(fn) + ":pass"
+				switch {
+				case again:
+					c.bad("R-HALVE-PAIR", key, p.at.Pos(), "a removal pass over the buffer can be followed by another pass without halving p ("+wit+"): survivors of k passes are weighted as if they had survived fewer, biasing the estimate low")
+				case toRet && fn == add:
+					c.bad("R-HALVE-PAIR", key, p.at.Pos(), "a removal pass over the buffer can be followed by a return without halving p ("+wit2+"): survivors of k passes are weighted as if they had survived fewer, biasing the estimate low")
+				case toRet:
+					unpaired[fn] = true
+					c.ok("R-HALVE-PAIR", key, p.at.Pos(), "the pass is left to the callers to pair with a halving of p (checked at each call)")
+				default:
+					c.ok("R-HALVE-PAIR", key, p.at.Pos(), "every removal pass is followed by a halving of p before the next pass or return")
+				}
+			}
+		}
+		judgeFn(add, 0)
+		if !passFound {
 			c.undecided("R-HALVE-PAIR", "distinct.(*Counter).Add:pass", add.Pos(), "the removal pass over the buffer was not recognised")
-		} else {
-			isShift := func(in ssa.Instruction) bool {
-				st, ok := in.(*ssa.Store)
-				if !ok {
-					return false
-				}
-				fa, ok := st.Addr.(*ssa.FieldAddr)
-				if !ok {
-					return false
-				}
-				_, f := fieldVarOf(fa)
-				return sameField(f, m.pF)
-			}
-			bad, wit := reachesWithout(P, done.Instrs[0], true, func(in ssa.Instruction) bool { return in == rng || isReturn(in) }, isShift)
-			c.judge(!bad, "R-HALVE-PAIR", "distinct.(*Counter).Add:pass", rng.Pos(), "every removal pass is followed by a halving of p before the next pass or return", "a removal pass over the buffer can be followed by another pass or by a return without halving p ("+wit+"): survivors of k passes are weighted as if they had survived fewer, biasing the estimate low")
 		}
 	} else {
 		c.undecided("ANCHOR", "distinct.(*Counter).Add", 0, "not found")
@@ -614,51 +781,102 @@ func runC19(c *Ctx) {
 
 	// ---- R-EXACT-REGIME
 	if add := P.Func("distinct", "Counter", "Add"); add != nil {
+		isRegimeCmp := func(cm Cmp) bool {
+			x, y, op := cm.X, cm.Y, cm.Op
+			if _, f := loadedField(x); f != nil && sameField(f, m.pF) {
+				if cst, ok := y.(*ssa.Const); ok && cst.Value != nil && constant.Compare(constant.ToInt(cst.Value), token.EQL, maxU) && (op == token.LSS || op == token.NEQ) {
+					return true
+				}
+			}
+			if m.isLenOfBuf(x) {
+				if _, f := loadedField(y); f != nil && sameField(f, m.capF) && (op == token.GEQ || op == token.GTR || op == token.EQL) {
+					return true
+				}
+			}
+			return false
+		}
 		regime := func(b *ssa.BasicBlock) bool {
 			for _, cm := range cmpsAt(b) {
-				x, y, op := cm.X, cm.Y, cm.Op
-				if _, f := loadedField(x); f != nil && sameField(f, m.pF) {
-					if cst, ok := y.(*ssa.Const); ok && cst.Value != nil && constant.Compare(constant.ToInt(cst.Value), token.EQL, maxU) && (op == token.LSS || op == token.NEQ) {
-						return true
-					}
+				if isRegimeCmp(cm) {
+					return true
 				}
-				if m.isLenOfBuf(x) {
-					if _, f := loadedField(y); f != nil && sameField(f, m.capF) && (op == token.GEQ || op == token.GTR || op == token.EQL) {
-						return true
+			}
+			// a predicate helper on the same counter known to have returned true
+			fn := b.Parent()
+			for call, truth := range callFactsAt(b) {
+				if !truth {
+					continue
+				}
+				if h := m.recvHelper(call, fn); h != nil {
+					for _, cm := range predCmps(h) {
+						if isRegimeCmp(cm) {
+							return true
+						}
 					}
 				}
 			}
 			return false
 		}
-		n := 0
-		allInstrs(add, func(in ssa.Instruction) {
-			var what string
-			switch x := in.(type) {
-			case *ssa.Call:
-				cal := staticCallee(&x.Call)
-				if cal == nil || len(x.Call.Args) == 0 || !m.isBufRecv(x.Call.Args[0]) {
-					return
+		// call sites of each helper within Add's closure
+		cl := m.closure(add)
+		callers := map[*ssa.Function][]*ssa.Call{}
+		for _, f := range cl {
+			allInstrs(f, func(in ssa.Instruction) {
+				if call, ok := in.(*ssa.Call); ok {
+					if h := m.recvHelper(call, f); h != nil {
+						callers[h] = append(callers[h], call)
+					}
 				}
-				e := classifySetMethod(cal)
-				if !e.shrinks && !e.empties {
-					return
-				}
-				what = "removal " + cal.Name()
-			case *ssa.Store:
-				fa, ok := x.Addr.(*ssa.FieldAddr)
-				if !ok {
-					return
-				}
-				if _, f := fieldVarOf(fa); !sameField(f, m.pF) {
-					return
-				}
-				what = "halving of p"
-			default:
-				return
+			})
+		}
+		var inRegime func(b *ssa.BasicBlock, depth int) bool
+		inRegime = func(b *ssa.BasicBlock, depth int) bool {
+			if regime(b) {
+				return true
 			}
-			n++
-			c.judge(regime(in.Block()), "R-EXACT-REGIME", "distinct.(*Counter).Add:"+what, instrPos(in), "only reachable once p < MaxUint64 or Len ≥ cap", "a removal/halving can happen while fewer than cap distinct values have been seen: the count is no longer exact below capacity")
-		})
+			fn := b.Parent()
+			if fn == add || depth > 4 || len(callers[fn]) == 0 {
+				return false
+			}
+			for _, call := range callers[fn] {
+				if !inRegime(call.Block(), depth+1) {
+					return false
+				}
+			}
+			return true
+		}
+		n := 0
+		for _, fn := range cl {
+			allInstrs(fn, func(in ssa.Instruction) {
+				var what string
+				switch x := in.(type) {
+				case *ssa.Call:
+					cal := staticCallee(&x.Call)
+					if cal == nil || len(x.Call.Args) == 0 || !m.isBufRecv(x.Call.Args[0]) {
+						return
+					}
+					e := classifySetMethod(cal)
+					if !e.shrinks && !e.empties {
+						return
+					}
+					what = "removal " + cal.Name()
+				case *ssa.Store:
+					fa, ok := x.Addr.(*ssa.FieldAddr)
+					if !ok {
+						return
+					}
+					if _, f := fieldVarOf(fa); !sameField(f, m.pF) {
+						return
+					}
+					what = "halving of p"
+				default:
+					return
+				}
+				n++
+				c.sawFn(fnName(fn))
+				c.judge(inRegime(in.Block(), 0), "R-EXACT-REGIME", fnName(fn)+":"+what, instrPos(in), "only reachable once p < MaxUint64 or Len ≥ cap", "a removal/halving can happen while fewer than cap distinct values have been seen: the count is no longer exact below capacity")
+			})
+		}
 		if n == 0 {
 			c.undecided("R-EXACT-REGIME", "distinct.(*Counter).Add", add.Pos(), "no removal or halving found")
 		}
